@@ -398,4 +398,34 @@ def rule_wc1(ctx: Ctx) -> RuleResult:
     return r
 
 
-RULES = [rule_st1, rule_st2_3_4, rule_st5, rule_st6, rule_wc1]
+def rule_st7(ctx: Ctx) -> RuleResult:
+    """ST-7: the default value of a state is stored, as the same object, in the slot of every key (MemoryStore.add_key):
+    it must not be a mutable object built when the state is declared."""
+    r = RuleResult("ST-7", "state defaults are immutable: a default_value built by a constructor or a container literal is one object shared by all keys and lifetimes")
+    for site in ctx.mux_sites():
+        for name, t in ctx.probe_states(site):
+            kw = dict(t.kwargs)
+            d = kw.get("default_value")
+            if d is None:
+                continue
+            r.instances += 1
+            r.groups.add((site.name, name))
+
+            def mutable(x):
+                if x[0] in ("list", "dict", "set", "comp"):
+                    return True
+                if x[0] == "call" and x[1][0] in ("builtin", "glob") and x[1][1].split(".")[-1] in (
+                        "list", "dict", "set", "deque", "bytearray", "array", "defaultdict", "OrderedDict", "Counter"):
+                    return True
+                if x[0] == "tuple":
+                    return any(mutable(y) for y in x[1:])
+                return False
+            r.ob(not mutable(d), lambda site=site, name=name, d=d, t=t: Finding(
+                "ST-7", "%s{%s}" % (site.name, name), t.where(),
+                "the state '%s' is declared with default_value=%s: the store puts this one object in the slot of every key, so what one key "
+                "(or one lifetime of a key) adds to it is seen by all the others" % (name, show(d))))
+    r.require_instances(ctx.scaled(3))
+    return r
+
+
+RULES = [rule_st1, rule_st2_3_4, rule_st5, rule_st6, rule_st7, rule_wc1]
